@@ -193,11 +193,13 @@ ROUND7 = {
  "C05": "Desired state also as an HCL document (string defaults arrive unquoted); the expected fill of a NULL under a new NOT NULL column is the model's default, not the migrated table's; enumerated sub-check null-becomes-default (column type x default shape x source of the desired state).",
  "C06": "MemDir.CopyFiles into a directory that already holds a file, and with the files handed over in reverse order.",
  "C08": "Runs of BEGIN ATOMIC words in the growth sub-check (all four option sets), run lengths grown two words at a time.",
- "C11": "The execution order stated by the flag, by the env of a project file, or by the flag against another order in the env (enumerated for an out-of-order file, sampled in the histories).",
+ "C11": "The execution order stated by the flag, by the env of a project file, or by the flag against another order in the env (enumerated for an out-of-order file, sampled in the histories); the first-run baseline travels the same three ways.",
  "C12": "CLI tier: the file added below an applied one, first attempt with --exec-order non-linear (its partial revision is not the newest); next run non-linear (same expectations) or linear with a newer pending file (refused, nothing executed).",
+ "C14": "The dev database named by the env of a project file (dev = ...) instead of --dev-url, enumerated and sampled.",
  "C15": "MySQL ENUM and SET columns carrying their own character set / collation.",
  "C16": "Inspected serial column in the PostgreSQL base (serial <-> integer retypes plan sequence statements).",
  "C17": "Sub-check fk-graphs-reverse: MySQL / PostgreSQL plans over foreign-key graphs (every graph of up to 3 tables, random ones of 5-8, flavours, two schemas) are replayed on C04's reference catalogue followed by their reverse statements, last change first: each must respect the dependency rules and the initial tables and keys must be back (one finding recorded).",
+ "C18": "Every other lint window is selected through the env of a project file (lint.latest, migration.dir, dev); one of them on the command line against another window in the env.",
  "C19": "One to three patterns in the exclude list of the CLI tier (a resource matched by a later pattern only).",
  "C20": "The same HCL files evaluated 24 times under names that share one base name in several directories.",
 }
